@@ -439,6 +439,14 @@ pub fn run_check(ctx: &Ctx) -> i32 {
                 g.push(target);
                 jobs.push(Job { strs: g.iter().map(|s| s.render()).collect(), sels: g });
             }
+            // the same selector registered before and after the fillers (ids on both sides of a
+            // multiple of 32 in one predicate's id set)
+            for dup in simple_lists(vec![ty("a"), Simple::Class("c".into())]) {
+                let mut g = vec![dup.clone()];
+                g.extend(fillers.iter().cloned());
+                g.push(dup);
+                jobs.push(Job { strs: g.iter().map(|s| s.render()).collect(), sels: g });
+            }
             // two late selectors that match the same elements (the second merge into a grown set)
             let mut g = fillers.clone();
             g.extend(simple_lists(vec![ty("a"), Simple::Universal, Simple::Class("c".into())]));
